@@ -276,7 +276,7 @@ func init() {
 			args = append(args, acc)
 		}
 		// the UF name encodes the argument shape so signatures stay consistent
-		full := name
+		full := name + "_o" + strconv.Itoa(outLen)
 		for _, x := range args {
 			full += fmt.Sprintf("_%d", x.w)
 		}
